@@ -79,7 +79,7 @@ def run(chk, replay=None):
         for w in bad[:1]:
             chk.fail("oracle", w, {"kind": "obstruction", "rseed": replay["rseed"], "parallel": replay["parallel"], "scenario": sc}, name="obstruction")
         return
-    res = K.drive(chk, replay, "C01", K.gen_c01, K.c01_oracle, nontrivial, n_quick=100, n_thorough=800,
+    res = K.drive(chk, replay, "C01", K.gen_c01, K.c01_oracle, nontrivial, n_quick=100, n_thorough=500,
                    rule=("histories = writes of 1-3 paths (nested, no extension, blanks, non-ASCII, dotfile, double extension; contents incl. empty, "
                          "CR/LF mixes, files differing only in line endings, NUL at byte 7999/8000/8001, duplicates), a commit by track or by "
                          "track --no-commit + carry-in, 1-5 later user actions / track / carry-in / recheck commands, then for every path a probe: "
